@@ -15,6 +15,7 @@ CB = "analysis/src/bin/alpha-g-chronobox-timestamps/main.rs"
 VX = "analysis/src/bin/alpha-g-vertices/main.rs"
 AN = "analysis/src/lib.rs"
 WIRES = "physics/src/deconvolution/wires.rs"
+SC = "analysis/src/bin/alpha-g-trg-scalers/main.rs"
 
 EDITS = [
     # ---- C18
@@ -88,4 +89,18 @@ EDITS = [
     ("C20", CB, "+ u64::from(epoch_counter) * (1u64 << TIMESTAMP_BITS);", "+ (u64::from(epoch_counter) << TIMESTAMP_BITS);"),
     ("C20", CB, "let top_bit = (timestamp_counter >> (TIMESTAMP_BITS - 1)) == 1;", "let top_bit = timestamp_counter >= (1 << (TIMESTAMP_BITS - 1));"),
     ("C20", CB, "if top_bit != previous.timestamp_top_bit {", "if !(top_bit == previous.timestamp_top_bit) {"),
+    # ---- continuation session: the row loops of the three binaries
+    ("C20", CB, "Some(_) => (None, chunk),", "Some(_) => (None, &chunk[..]),"),
+    ("C20", CB, "leading_edge: matches!(tsc.edge, EdgeType::Leading),", "leading_edge: !matches!(tsc.edge, EdgeType::Trailing),"),
+    ("C20", CB, "            previous_marker = next_marker;\n", "            if next_marker.is_some() {\n                previous_marker = next_marker;\n            }\n"),
+    ("C20", CB, "FifoEntry::WrapAroundMarker(marker) => marker.wrap_around_counter() == 0,", "FifoEntry::WrapAroundMarker(marker) => 0 == marker.wrap_around_counter(),"),
+    ("C20", CB, "                    !marker.timestamp_top_bit\n", "                    marker.timestamp_top_bit == false\n"),
+    ("C20", CB, "channel: u8::from(tsc.channel),", "channel: tsc.channel.into(),"),
+    ("C20", CB, "let fifo = fifo.split_off(epoch_0_index);", "let kept = fifo.split_off(epoch_0_index);\n            let fifo = kept;"),
+    ("C19", SC, "let current = timestamp.unwrap_or(previous.unwrap_or(0));", "let current = match timestamp { Some(t) => t, None => previous.unwrap_or(0) };"),
+    ("C19", SC, "if let Some(trg_packet) = trg_packet {\n                Some(Row {", "if let Some(packet) = trg_packet {\n                let trg_packet = packet;\n                Some(Row {"),
+    ("C19", SC, "pulser: Some(trg_packet.pulser_counter()),\n                    output: Some(trg_packet.output_counter()),", "output: Some(trg_packet.output_counter()),\n                    pulser: Some(trg_packet.pulser_counter()),"),
+    ("C19", SC, "*cumulative += u64::from(delta);", "*cumulative = *cumulative + u64::from(delta);"),
+    ("C19", VX, "if timestamp.is_some() {\n                Some(Row {", "if let Some(_) = timestamp {\n                Some(Row {"),
+    ("C19", VX, "reconstructed_x: vertex.map(|v| v.x.get::<meter>()),\n                    reconstructed_y: vertex.map(|v| v.y.get::<meter>()),", "reconstructed_y: vertex.map(|v| v.y.get::<meter>()),\n                    reconstructed_x: vertex.map(|v| v.x.get::<meter>()),"),
 ]
